@@ -431,6 +431,7 @@ func checkC15(ck *Check) {
 // addedTaint (C15.R3)
 func (ck *Check) addedTaint(rule string, us *updSite) {
 	fn, ctx := us.fn, us.ctx
+	litCtx := ctx
 	key := ck.P.siteKey(us.upd)
 	// the store to Spec.Taints
 	var st *ssa.Store
@@ -482,6 +483,7 @@ func (ck *Check) addedTaint(rule string, us *updSite) {
 					}
 					if nret == 1 && got != nil && got.Kind == "struct" {
 						lit = got
+						litCtx = ch
 					}
 				}
 			}
@@ -513,7 +515,32 @@ func (ck *Check) addedTaint(rule string, us *updSite) {
 		if v.Name == "fmt.Sprint" {
 			if sl, ok := v.Args[0].Val.(*ssa.Slice); ok {
 				if el, ok := variadicElems(sl); ok && len(el) == 1 {
-					arg = ctx.Term(el[0])
+					// the literal may have been read out of a one-expression helper: its operands
+					// are then values of the helper, read with its parameters bound at the call
+					if h := sl.Parent(); h != fn && litCtx == ctx {
+						for _, ci := range callsTo(fn, h) {
+							if c, ok := ci.(*ssa.Call); ok {
+								args := make([]*Term, len(c.Common().Args))
+								for i, av := range c.Common().Args {
+									args[i] = ctx.Term(av)
+								}
+								litCtx = ctx.child(h, c, args)
+							}
+						}
+					}
+					arg = litCtx.Term(el[0])
+				}
+			} else if a0 := v.Args[0]; a0.Kind == "slice" && len(a0.Args) > 0 {
+
+				// the variadic slice read in a helper's frame: a slice of the argument array
+				if al, ok := a0.Args[0].Val.(*ssa.Alloc); ok {
+					for _, r := range *al.Referrers() {
+						if sl, ok := r.(*ssa.Slice); ok {
+							if el, ok := variadicElems(sl); ok && len(el) == 1 {
+								arg = litCtx.Term(el[0])
+							}
+						}
+					}
 				}
 			}
 		} else {
@@ -1883,6 +1910,43 @@ func (ck *Check) writeConfirmed(rule string, fn *ssa.Function) {
 		}
 	}
 	ck.floor(rule, "success returns of "+fn.Name(), n, 1)
+	// the converse, after the write: once the server accepted the Update (nil error, non-nil result)
+	// the writer reports success — a failure reported for a write that took effect makes the taint
+	// loop write one node more than decided
+	ut := ctx.Term(upd)
+	resNil := FFalse
+	for _, b := range fn.Blocks {
+		for _, at := range ctx.BlockPC(b).Atoms() {
+			if at.Kind == "cmp" && at.Name == "==" && hasConstStr(at, "nil") {
+				for _, x := range at.Args {
+					if isExtractOf(x, 0, func(t *Term) bool { return t.Key() == ut.Key() }) {
+						resNil = Atom(at)
+					}
+				}
+			}
+		}
+	}
+	m := 0
+	for _, b := range fn.Blocks {
+		r, ok := b.Instrs[len(b.Instrs)-1].(*ssa.Return)
+		if !ok || len(r.Results) != 2 || !(after[b] || b == upd.Block()) {
+			continue
+		}
+		pre := And(ctx.PC(r), updOK, Not(resNil))
+		if sat, err := Satisfiable(pre); err == nil && !sat {
+			continue
+		}
+		m++
+		k, isConst := r.Results[1].(*ssa.Const)
+		good := isConst && k.IsNil()
+		if !good {
+			// the Update's own error handed on: nil under the premise
+			good = isExtractOf(ctx.Term(r.Results[1]), 1, func(t *Term) bool { return t.Key() == ut.Key() })
+		}
+		ck.cond(good, rule, fmt.Sprintf("%s/return@block%d/reported", funcID(fn), b.Index), ck.P.instrPos(r), funcID(fn), "after an Update the server accepted, the writer returns a nil error", ctx.Term(r.Results[1]).String(),
+			"a write that took effect is reported as a failure: the caller does not count the node and writes another one")
+	}
+	ck.floor(rule, "returns of "+fn.Name()+" after an accepted Update", m, 1)
 }
 
 // alreadyPresent: the condition under which the taint writer's search found a taint with the
